@@ -138,8 +138,6 @@ class Ctx:
         def wrapped(case):
             if self._failing is not None:
                 self._post_failure_calls += 1
-                if self._post_failure_calls > self._shrink_budget:
-                    raise StopShrink()
             try:
                 body(self, case)
             except PropertyFailure as exc:
@@ -147,6 +145,10 @@ class Ctx:
                     exc.case = jsonable(case)
                 exc.part = part
                 self._failing = exc
+                # deterministic shrink budget: stop at a failing attempt (so the reported case
+                # is a real failure) once enough executions have been spent on shrinking
+                if self._post_failure_calls > self._shrink_budget:
+                    raise StopShrink() from None
                 raise
         return wrapped
 
@@ -183,14 +185,11 @@ class Ctx:
         self._failing = None
         self._post_failure_calls = 0
         ctx = self
-        budget = self._shrink_budget // 10
 
         class Bound(machine_cls):
             def __init__(self):
                 if ctx._failing is not None:
                     ctx._post_failure_calls += 1
-                    if ctx._post_failure_calls > budget:
-                        raise StopShrink()
                 super().__init__()
 
         Bound.__name__ = machine_cls.__name__
@@ -207,8 +206,10 @@ class Ctx:
             self._part = None
 
     def note_failure(self, exc):
-        """Called by machines so the shrink budget knows a failure was seen."""
+        """Called by machines when a step fails, so the shrink budget knows a failure was seen."""
         self._failing = exc
+        if self._post_failure_calls > self._shrink_budget // 10:
+            raise StopShrink() from None
 
     def exhaustive(self, part, iterable, body, label=None):
         """Enumerate a finite sub-domain completely (split across shards by index)."""
